@@ -205,13 +205,13 @@ Qed.
 (* ---- non-vacuity: a history with two registered names, a masked stream, a rejected Update, an
    unchanged value under an equivalence and a cancel; the model's trace is accepted and changes ---- *)
 Example C14_nonvacuous_history :
-  let rule := fun (b : option Z) (q : Z) => if q <? 0 then inr 3 else inl q : Z + Z in
-  let t := trace_of_run Z.eqb 0 (fun (k : Z) (x : Z) => x mod k) (Some (option_eqb Z.eqb)) (fun n => n) rule
+  let rule := fun (b : option Z) (q : Z) => if (q <? 0)%Z then inr 3 else inl q : Z + Z in
+  let t := trace_of_run Z.eqb 0 (fun (k : Z) (x : Z) => (x mod k)%Z) (Some (option_eqb Z.eqb)) (fun n => n) rule
              ["dev"; "dev2"] (Some 5)
              [QPull "dev2" (Some 10) false; QUpdate "dev" 17; QUpdate "dev" (-1); QUpdate "dev2" 27;
               QGet "dev" None; QGet "nobody" None; QCancel 0%nat; QUpdate "dev" 8; QGet "dev2" (Some 3)] in
   t_streams t = [([("dev2", 5); ("dev2", 7)], Some 1)] /\
   map (fun e => match e with TGet _ _ r => Some r | _ => None end) (t_evs t) =
     [None; None; None; None; Some (inl (Some 27)); Some (inr 5); None; None; Some (inl (Some 2))] /\
-  trace_ok Z.eqb (fun (k : Z) (x : Z) => x mod k) (Some (option_eqb Z.eqb)) ["dev"; "dev2"] t = true.
+  trace_ok Z.eqb (fun (k : Z) (x : Z) => (x mod k)%Z) (Some (option_eqb Z.eqb)) ["dev"; "dev2"] t = true.
 Proof. vm_compute. repeat split; reflexivity. Qed.
